@@ -282,7 +282,7 @@ def r7(ctx):
                                 not cb.calls(r'^transform::Transform::\w+$'):
                             return True
         return False
-    ctx.check(not by_copy_alone(ld[0]), rule, b.path + '|piped-transforms-are-cached', ld[0].where(), 'the cache is bypassed for transforms that see the original path, not for every transform without a copy',
+    ctx.advise(not by_copy_alone(ld[0]), rule, b.path + '|piped-transforms-are-cached', ld[0].where(), 'the cache is bypassed for transforms that see the original path, not for every transform without a copy',
               'the cache is switched off by `Transform.copy` alone, which is initialised with "the command contains $IN": it is false for every command that reads its standard input '
               '(`--transform "gzip -dc"`, `cat`, ..), so `group --cache --transform <piped command>` never looks anything up nor stores anything - the program is launched for every file in every run')
     ok = depends_on_copy(ld[0]) and all(depends_on_copy(c) for c in stc)
@@ -371,7 +371,7 @@ def r2(ctx):
             # the ctime is read only where created() has failed: not before it, and not on the path where it succeeded
             if ct and not all(c.bb in x.reachable(cr[0].bb) for c in ct):
                 birth_first = False
-    ctx.check(birth_first, rule, P + '|renaming-keeps-the-entry', (stamp_fns[0].where() if stamp_fns else b.where()), 'the incarnation stamp is the birth time of the file, the status-change time only where there is none',
+    ctx.advise(birth_first, rule, P + '|renaming-keeps-the-entry', (stamp_fns[0].where() if stamp_fns else b.where()), 'the incarnation stamp is the birth time of the file, the status-change time only where there is none',
               'the entry is validated by the status-change time, which rename(2), chmod, chown and link / unlink of another name update: after `mv t/a t/sub/renamed` every cached hash of the file is '
               'thrown away and the file is read again (8 MB read instead of 0) - the cache is keyed by the inode exactly so that this does not happen (README: "Cached hashes are not invalidated by '
               'file moves"); reorganising a collection between two `group --cache` runs costs a complete re-read')
